@@ -129,6 +129,7 @@ type Exec struct {
 	stack    []string
 	binders  int
 	nameCount map[string]int
+	neutralMemo map[*types.Func]int
 }
 
 func (e *Exec) fail(pos token.Pos, format string, a ...any) {
@@ -1113,27 +1114,178 @@ func (e *Exec) assignedIn(nodes ...ast.Node) (map[types.Object]bool, bool) {
 
 // callIsHeapNeutral reports whether a call certainly leaves all heaps alone.
 func (e *Exec) callIsHeapNeutral(call *ast.CallExpr) bool {
-	info := e.info()
+	return e.callNeutral(e.info(), call, 0)
+}
+
+// callNeutral reports whether a call certainly leaves every heap (pointees, maps, globals) alone.
+func (e *Exec) callNeutral(info *types.Info, call *ast.CallExpr, depth int) bool {
 	if tv, ok := info.Types[call.Fun]; ok && tv.IsType() {
 		return true
 	}
-	switch f := call.Fun.(type) {
-	case *ast.Ident:
-		if _, ok := info.Uses[f].(*types.Builtin); ok {
-			return f.Name != "delete"
-		}
+	fun := ast.Unparen(call.Fun)
+	if ix, ok := fun.(*ast.IndexExpr); ok {
+		fun = ix.X
 	}
-	name := e.calleeName(call)
-	if name == "" {
+	var fn *types.Func
+	var recvT types.Type
+	switch f := fun.(type) {
+	case *ast.Ident:
+		switch o := info.Uses[f].(type) {
+		case *types.Builtin:
+			return f.Name != "delete" && f.Name != "close" && f.Name != "clear"
+		case *types.Func:
+			fn = o
+		case *types.Var:
+			for _, fr := range e.frames {
+				if c, ok := fr.closures[o]; ok && c.Lit != nil {
+					return depth < 6 && !e.nodeWritesHeap(c.Pkg.TypesInfo, c.Lit.Body, depth+1)
+				}
+			}
+			return false
+		}
+	case *ast.SelectorExpr:
+		if sel, ok := info.Selections[f]; ok {
+			if sel.Kind() != types.MethodVal {
+				return false
+			}
+			fn = sel.Obj().(*types.Func)
+			recvT = info.TypeOf(f.X)
+		} else if o, ok := info.Uses[f.Sel].(*types.Func); ok {
+			fn = o
+		}
+	case *ast.FuncLit:
+		return depth < 6 && !e.nodeWritesHeap(info, f.Body, depth+1)
+	}
+	if fn == nil {
 		return false
 	}
-	if isNoEffect(name) || stdModels[name] != nil || pureStd[name] {
+	name := fn.Origin().FullName()
+	litsOK := func() bool {
+		for _, a := range call.Args {
+			if fl, ok := ast.Unparen(a).(*ast.FuncLit); ok {
+				if depth >= 6 || e.nodeWritesHeap(info, fl.Body, depth+1) {
+					return false
+				}
+			}
+		}
 		return true
 	}
-	if c := e.prog.contractForName(name); c != nil && (c.Pure || (c.ModSet && len(c.Modifies) == 0)) {
+	if isNoEffect(name) || isFatal(name) {
 		return true
 	}
-	return false
+	if stdModels[name] != nil || pureStd[name] || isWalk(name) {
+		return litsOK()
+	}
+	if c := e.prog.contractForName(name); c != nil {
+		return c.Pure || (c.ModSet && len(c.Modifies) == 0)
+	}
+	pkgPath := ""
+	if fn.Pkg() != nil {
+		pkgPath = fn.Pkg().Path()
+	}
+	if strings.Contains(pkgPath, "thought-machine/please") {
+		decl, pkg := e.prog.findDecl(fn)
+		if decl == nil || decl.Body == nil || depth >= 6 {
+			return false
+		}
+		if e.neutralMemo == nil {
+			e.neutralMemo = map[*types.Func]int{}
+		}
+		switch e.neutralMemo[fn.Origin()] {
+		case 1:
+			return true // recursion: decided by the rest of the body
+		case 2:
+			return true
+		case 3:
+			return false
+		}
+		e.neutralMemo[fn.Origin()] = 1
+		w := e.nodeWritesHeap(pkg.TypesInfo, decl.Body, depth+1)
+		if w {
+			e.neutralMemo[fn.Origin()] = 3
+		} else {
+			e.neutralMemo[fn.Origin()] = 2
+		}
+		return !w && litsOK()
+	}
+	// library callee: it can only reach repository state through its arguments
+	if recvT != nil && typeTouchesRepo(recvT, 0) {
+		return false
+	}
+	for _, a := range call.Args {
+		if _, ok := ast.Unparen(a).(*ast.FuncLit); ok {
+			continue
+		}
+		if t := info.TypeOf(a); t != nil && typeTouchesRepo(t, 0) {
+			return false
+		}
+	}
+	return litsOK()
+}
+
+// nodeWritesHeap: does executing this code possibly write through a pointer, into a map or a global,
+// or call something that does? (Conservative.)
+func (e *Exec) nodeWritesHeap(info *types.Info, node ast.Node, depth int) bool {
+	writes := false
+	lhs := func(x ast.Expr) {
+		for {
+			switch y := ast.Unparen(x).(type) {
+			case *ast.Ident:
+				obj := info.Uses[y]
+				if obj == nil {
+					obj = info.Defs[y]
+				}
+				if v, ok := obj.(*types.Var); ok && v.Pkg() != nil && v.Parent() == v.Pkg().Scope() {
+					writes = true
+				}
+				return
+			case *ast.SelectorExpr:
+				if t := info.TypeOf(y.X); t != nil {
+					if _, ok := t.Underlying().(*types.Pointer); ok {
+						writes = true
+						return
+					}
+				}
+				x = y.X
+			case *ast.IndexExpr:
+				if t := info.TypeOf(y.X); t != nil {
+					switch t.Underlying().(type) {
+					case *types.Map, *types.Pointer, *types.Slice:
+						writes = true
+						return
+					}
+				}
+				x = y.X
+			case *ast.StarExpr:
+				writes = true
+				return
+			default:
+				writes = true
+				return
+			}
+		}
+	}
+	ast.Inspect(node, func(n ast.Node) bool {
+		if writes {
+			return false
+		}
+		switch n := n.(type) {
+		case *ast.AssignStmt:
+			for _, l := range n.Lhs {
+				lhs(l)
+			}
+		case *ast.IncDecStmt:
+			lhs(n.X)
+		case *ast.SendStmt, *ast.GoStmt:
+			writes = true
+		case *ast.CallExpr:
+			if !e.callNeutral(info, n, depth) {
+				writes = true
+			}
+		}
+		return true
+	})
+	return writes
 }
 
 func (e *Exec) havocVars(st *State, assigned map[types.Object]bool, heapW bool, why string) {
